@@ -1,6 +1,7 @@
 #!/bin/sh
-# Build the framework offline: regenerate the model from /repo, build model + proofs.
+# Build the framework offline: regenerate the model (and the generated equivariance proofs) from /repo, build model + proofs.
 set -e
 cd "$(dirname "$0")"
-python3-vt tools/trace/gen.py
+/venv/bin/python tools/trace/gen.py
+/venv/bin/python tools/trace/equiv.py --out lean > /dev/null
 cd lean && lake build QscModel QscProofs
